@@ -8,6 +8,7 @@ import (
 	"strconv"
 	"strings"
 	"sync"
+	"sync/atomic"
 	"time"
 )
 
@@ -29,6 +30,7 @@ var (
 	held     = map[string]int{} // label -> number of goroutines currently parked
 	cond     = sync.NewCond(&mu)
 	ids      = map[interface{}]uint64{}
+	spins    = map[string]*int32{} // label -> flag of a spin gate (goroutines busy-wait: released within nanoseconds of each other)
 )
 
 func gid() uint64 {
@@ -65,11 +67,20 @@ func Point(label string, args ...uint64) {
 	events = append(events, Event{seq, g0, label, append([]uint64(nil), args...)})
 	g := gates[label]
 	one := ones[label]
-	if g != nil {
+	sp := spins[label]
+	if g != nil || sp != nil {
 		held[label]++
 	}
 	cond.Broadcast()
 	mu.Unlock()
+	if sp != nil {
+		for end := time.Now().Add(20 * time.Second); atomic.LoadInt32(sp) == 0; {
+			if time.Now().After(end) {
+				break
+			}
+		}
+		return
+	}
 	if g != nil {
 		select {
 		case <-g:
@@ -87,6 +98,25 @@ func Hold(label string) {
 	if gates[label] == nil {
 		gates[label] = make(chan struct{})
 		ones[label] = make(chan struct{}, 1024)
+	}
+	mu.Unlock()
+}
+
+// HoldSpin makes every later Point(label) busy-wait until ReleaseSpin(label): all of them continue at the same instant.
+func HoldSpin(label string) {
+	mu.Lock()
+	spins[label] = new(int32)
+	held[label] = 0
+	mu.Unlock()
+}
+
+// ReleaseSpin lets the spinning goroutines of label go.
+func ReleaseSpin(label string) {
+	mu.Lock()
+	if sp := spins[label]; sp != nil {
+		atomic.StoreInt32(sp, 1)
+		delete(spins, label)
+		held[label] = 0
 	}
 	mu.Unlock()
 }
@@ -195,6 +225,10 @@ func Reset() {
 			close(g)
 		}
 		delete(detached, l)
+	}
+	for l, sp := range spins {
+		atomic.StoreInt32(sp, 1)
+		delete(spins, l)
 	}
 	held = map[string]int{}
 	events = nil
